@@ -398,7 +398,8 @@ def run_check(engine_cls, tier, base_seed, jobs=None, runs=None, budget_s=None, 
         rec = {
             "format": FORMAT, "property": engine.PROPERTY, "engine": engine.ENGINE_NAME, "seed": r["seed"],
             "base_seed": base_seed, "tier": tier, "run_index": r["index"], "sweep_subcase": r.get("sub", 0), "repo_rev": rev,
-            "case": small, "violation": viol, "event_digest": res.digest,
+            "case": small, "violation": viol, "event_digest": res.digest, "event_trace_tail": res.events,
+            "fault_plan": [dict(f) for f in small.get("faults", [])],
             "n_runs_with_this_class": len(rs),
         }
         path = os.path.join(OUT, "replays", engine.PROPERTY, "%d-%d.json" % (r["seed"], n_rep))
